@@ -42,6 +42,8 @@ type ClientOp struct {
 
 type World struct {
 	S        *Sim
+	isFatal  func() bool
+	tainted  map[uint64]map[[2]uint64]bool // node -> labels of received snapshot files that took a chunk of another snapshot
 	rng      *Rng
 	rep      *Report
 	prof     string
@@ -536,6 +538,15 @@ func runWalk(t *testing.T, rep *Report, prof profile, seed uint64, walk int, act
 	synctest.Test(t, func(t *testing.T) {
 		time.Sleep(time.Hour)
 		s := NewSim(root, SimOpts{SnapEvery: prof.snapEvery, PadBytes: pad})
+		var badMu sync.Mutex
+		var bad []string
+		var badNodes []uint64
+		s.OnBadRestore = func(node uint64, size int, err error) {
+			badMu.Lock()
+			bad = append(bad, fmt.Sprintf("node %d: Restore was handed %d bytes that are not a state machine image: %v", node, size, err))
+			badNodes = append(badNodes, node)
+			badMu.Unlock()
+		}
 		w := &World{S: s, rng: rng, rep: rep, prof: prof.name, leaders: map[uint64]map[uint64]bool{}, firstLead: map[[2]uint64]bool{},
 			crashed: map[uint64]string{}, crashLogs: map[uint64]LogSt{}, armed: map[uint64]bool{}, incs: map[uint64]int{}, maxTermSeen: map[uint64]uint64{},
 			violated: map[string]bool{}, members: map[uint64]bool{}, bounded: prof.bounded,
@@ -556,7 +567,25 @@ func runWalk(t *testing.T, rep *Report, prof profile, seed uint64, walk int, act
 				t.Fatal(err)
 			}
 		}
+		w.isFatal = func() bool { badMu.Lock(); defer badMu.Unlock(); return len(bad) > 0 }
 		spare := uint64(nn + 1)
+		halted := false
+		// the library ends the process when Restore fails (logger.Fatal): the walk ends with this finding
+		badRestore := func() bool {
+			badMu.Lock()
+			defer badMu.Unlock()
+			if len(bad) == 0 {
+				return false
+			}
+			w.checkSnapshots()
+			pat := "restore-unparsable"
+			if len(w.tainted[badNodes[0]]) > 0 {
+				pat = "restore-of-mixed-chunks"
+			}
+			w.violate("C10", "a state machine was restored from bytes that are not a state machine image", bad[0],
+				map[string]string{"oracle": "snapshot-exact", "pattern": pat})
+			return true
+		}
 		held := []*Call{}
 		acked := map[int]bool{}
 		for a := 0; a < actions; a++ {
@@ -736,11 +765,24 @@ func runWalk(t *testing.T, rep *Report, prof profile, seed uint64, walk int, act
 			}
 			w.drain()
 			w.collectTrips()
+			w.trackMixing()
+			if badRestore() {
+				halted = true
+				break
+			}
 			w.observe()
 			w.checkAckDurability(acked)
 			if len(w.violated) > 0 && a > actions/2 {
 				break
 			}
+		}
+		if halted {
+			rep.Case(w.walkID, len(w.Ops) > 0)
+			rep.Evaluations += len(w.Trace)
+			rep.Hit("walk:" + prof.name)
+			rep.Hit("walk-ended-by-fatal-restore")
+			s.StopAll()
+			return
 		}
 		// ---- quiet period: heal, restart, deliver promptly; the cluster must converge (C15)
 		w.note("--- quiet period ---")
@@ -762,8 +804,11 @@ func runWalk(t *testing.T, rep *Report, prof profile, seed uint64, walk int, act
 			}
 		}
 		w.quiet()
-		w.observe()
-		w.checkSnapshots()
+		w.trackMixing()
+		if !badRestore() {
+			w.observe()
+			w.checkSnapshots()
+		}
 		rep.Case(w.walkID, len(w.Ops) > 0)
 		rep.Evaluations += len(w.Trace) // scheduler actions executed and checked by the oracles
 		rep.Hit("walk:" + prof.name)
@@ -879,17 +924,26 @@ func (w *World) settled() bool {
 	return true
 }
 
+// fatal: the code under test has ended its process (a Restore failed; see runWalk).
+func (w *World) fatal() bool { return w.isFatal != nil && w.isFatal() }
+
 func (w *World) quiet() {
 	s := w.S
 	et := s.Opts.ET
 	if !w.settled() {
 		s.Run(6*et, 5*time.Millisecond, nil)
+		if w.fatal() {
+			return
+		}
 		if !w.settled() {
 			w.rep.Hit("quiet-skipped-unsettled-membership")
 			return
 		}
 	}
-	ok := s.Run(12*et, 5*time.Millisecond, func() bool { return s.Leader() != 0 && w.allCaughtUp() })
+	ok := s.Run(12*et, 5*time.Millisecond, func() bool { return w.fatal() || (s.Leader() != 0 && w.allCaughtUp()) })
+	if w.fatal() {
+		return
+	}
 	lead := s.Leader()
 	if lead == 0 {
 		w.violate("C15", "no leader after a fault-free period of 12 election timeouts with all members running", s.StatusLine(), map[string]string{"oracle": "eventual-leader", "membership": w.membershipTag()})
@@ -909,7 +963,10 @@ func (w *World) quiet() {
 	before := len(w.Ops)
 	w.submit("rep", lead, 0, false)
 	op := w.Ops[before]
-	s.Run(6*et, 5*time.Millisecond, func() bool { w.mu.Lock(); defer w.mu.Unlock(); return op.Done })
+	s.Run(6*et, 5*time.Millisecond, func() bool { w.mu.Lock(); defer w.mu.Unlock(); return op.Done || w.fatal() })
+	if w.fatal() {
+		return
+	}
 	w.mu.Lock()
 	done, errS := op.Done, op.Err
 	w.mu.Unlock()
@@ -917,7 +974,10 @@ func (w *World) quiet() {
 		w.violate("C15", "a fresh replicated operation did not complete in the fault-free period", fmt.Sprintf("op done=%v err=%q; %s", done, errS, s.StatusLine()),
 			map[string]string{"oracle": "progress", "membership": w.membershipTag()})
 	}
-	ok = s.Run(8*et, 5*time.Millisecond, w.allCaughtUp)
+	ok = s.Run(8*et, 5*time.Millisecond, func() bool { return w.fatal() || w.allCaughtUp() })
+	if w.fatal() {
+		return
+	}
 	if !ok {
 		diag := ""
 		if l := s.Leader(); l != 0 {
@@ -999,6 +1059,26 @@ func (w *World) allCaughtUp() bool {
 	return true
 }
 
+// trackMixing collects, per node, the received snapshot files into which the handler of a request
+// with a different label wrote or which it closed (the known defect S20), and reports the event.
+func (w *World) trackMixing() {
+	for _, id := range w.S.IDs() {
+		for _, m := range w.S.Nodes[id].Rec.TakeMixed() {
+			if w.tainted == nil {
+				w.tainted = map[uint64]map[[2]uint64]bool{}
+			}
+			if w.tainted[id] == nil {
+				w.tainted[id] = map[[2]uint64]bool{}
+			}
+			w.tainted[id][m.File] = true
+			w.note("node %d: the handler of a chunk labelled (%d,t%d) did a %s on the file received for (%d,t%d)", id, m.Req[0], m.Req[1], m.Op, m.File[0], m.File[1])
+			w.violate("C11", "a chunk of one snapshot was accepted into the received file of another",
+				fmt.Sprintf("node %d: file for (%d,t%d), %s by the handler of a chunk of (%d,t%d)", id, m.File[0], m.File[1], m.Op, m.Req[0], m.Req[1]),
+				map[string]string{"oracle": "chunks-exact", "pattern": "chunk-of-other-snapshot-accepted"})
+		}
+	}
+}
+
 // checkSnapshots: C10 — every snapshot on any disk holds exactly the operations up to its label.
 func (w *World) checkSnapshots() {
 	if w.S.Opts.SnapEvery == 0 {
@@ -1023,8 +1103,13 @@ func (w *World) checkSnapshots() {
 				continue
 			}
 			if err := json.Unmarshal(data, &st); err != nil {
+				pat := "incomplete"
+				if w.tainted[id][[2]uint64{meta.LastIncludedIndex, meta.LastIncludedTerm}] {
+					// the scheduler saw a chunk of another snapshot go into this very file (S20)
+					pat = "mixed-chunks"
+				}
 				w.violate("C10", "a visible snapshot does not hold a complete state machine image", fmt.Sprintf("node %d %s: %v (%d bytes)", id, e.Name(), err, len(data)),
-					map[string]string{"oracle": "snapshot-exact", "pattern": "incomplete"})
+					map[string]string{"oracle": "snapshot-exact", "pattern": pat})
 				continue
 			}
 			var want []uint64
